@@ -85,8 +85,12 @@ def check(repo, rep, tier):
         # consumed per sentence)
         rp.r_sentence_loop(repo, rep, 'R1.3', ti)
     rp.r_config_once(repo, rep, 'R1.3')
-    from .c11 import r_state
+    from .c11 import r_state, r_chunks, r_gather
     r_state(repo, rep, 'R1.3')
+    # "the first parse returned for a sentence": a large batch is cut into chunks for a pool of workers; the list that
+    # comes back for sentence i must be the one computed from sentence i (shared with C11 R11.2 / R11.3)
+    r_chunks(repo, rep, 'R1.3')
+    r_gather(repo, rep, 'R1.3')
     rep.rule('R1.6', 'the set of admitted supertags is the one the property names: pruning_size best, beta filter when enabled (shared with C16)')
     if len(m.by_kind.get('leaf', [])) == 1:
         rc.r_beam(m, rep, 'R1.6')
